@@ -76,6 +76,10 @@ type csCase struct {
 	Params csParams            `json:"params"`
 	Funds  map[string][]string `json:"funds"` // user -> amounts per denom code order S,T0..T3
 	Ops    []csOp              `json:"ops"`
+	// ModuleFunds: coins the coinswap module account itself holds from the start (a genesis balance; nothing can send to
+	// it later), amounts per denom code order S,T0..T3.  The creation fee passes through this account: exactly the fee
+	// may leave it again (tax forwarded, rest burned), never what was there before.
+	ModuleFunds []string `json:"module_funds,omitempty"`
 }
 
 // ---- name <-> code mapping ----
@@ -1156,6 +1160,16 @@ func runCoinswap(e *Env, prop string) {
 				kase.Funds[fmt.Sprintf("U%d", i)] = f
 			}
 			kase.Params = e.csGenParams(w, bigOf(kase.Funds["U0"][0]))
+			if e.Chance(0.35) {
+				for d := 0; d < 1+csTokens; d++ {
+					v := big.NewInt(0)
+					if d == 0 || e.Chance(0.4) {
+						v = new(big.Int).Add(e.Below(bigOf(kase.Funds["U0"][d])), big.NewInt(1))
+					}
+					kase.ModuleFunds = append(kase.ModuleFunds, v.String())
+				}
+				e.Stats.Count("prep:coinswap-module-account-holds-coins")
+			}
 		}
 		// ---- set up the real state ----
 		w.a.CoinswapKeeper.SetParams(ctx, w.toParams(kase.Params))
@@ -1169,6 +1183,17 @@ func runCoinswap(e *Env, prop string) {
 				panic(err)
 			}
 			if err := w.a.BankKeeper.SendCoinsFromModuleToAccount(ctx, coinswaptypes.ModuleName, w.users[i], coins); err != nil {
+				panic(err)
+			}
+		}
+		if len(kase.ModuleFunds) > 0 {
+			var coins sdk.Coins
+			for d, dc := range append([]string{"S"}, w.dcodes[1:1+csTokens]...) {
+				if d < len(kase.ModuleFunds) && bigOf(kase.ModuleFunds[d]).Sign() > 0 {
+					coins = coins.Add(sdk.NewCoin(w.denoms[dc], sdkmath.NewIntFromBigInt(bigOf(kase.ModuleFunds[d]))))
+				}
+			}
+			if err := w.a.BankKeeper.MintCoins(ctx, coinswaptypes.ModuleName, coins); err != nil {
 				panic(err)
 			}
 		}
